@@ -84,6 +84,19 @@ func BindSpecs(thorough bool) []*spec.Spec {
 		out = append(out, withCell(spec.One("bind_path_kinds", f), "bind/loc=path,card=singular", "extended", "valid", "bind"))
 	}
 	{
+		// path variables bound to proto3 optional fields (explicit presence: a pointer in Go) of every kind, on a body verb and on GET
+		var msgs []*spec.Message
+		s := spec.Svc("OptPathService", "/po")
+		for _, k := range bindKinds {
+			pm := spec.M("PO_"+k, spec.F("v", k).Opt(), spec.F("note", "string"))
+			gm := spec.M("GO_"+k, spec.F("v", k).Opt(), spec.F("note", "string").Q(""))
+			msgs = append(msgs, pm, gm)
+			s.Methods = append(s.Methods, spec.RPC("Put_"+k, pm.Name, "Out", "PUT", "/p/"+k+"/{v}"), spec.RPC("Get_"+k, gm.Name, "Out", "GET", "/g/"+k+"/{v}"))
+		}
+		f := &spec.File{Messages: append(msgs, spec.M("Out", spec.F("ok", "bool"))), Services: []*spec.Service{s}}
+		out = append(out, withCell(spec.One("bind_path_optional", f), "bind/loc=path,card=optional", "extended", "valid", "bind"))
+	}
+	{
 		// URL-bound fields that carry a JSON annotation: 64-bit integers with int64_encoding NUMBER (and, as a control, STRING) as
 		// path variables on a bodiless and on a body verb, and as singular / optional / repeated query parameters
 		var msgs []*spec.Message
